@@ -76,6 +76,10 @@ def build_harness(profile="release"):
     """(re)build the harness against /repo's current working tree with the hooks on"""
     if profile in _built:
         return _built[profile]
+    if os.environ.get("NL_HARNESS_EXE"):
+        # measurement mode (tools/coverage.sh): a pre-built, coverage-instrumented harness; never used by a registered command
+        _built[profile] = os.environ["NL_HARNESS_EXE"]
+        return _built[profile]
     os.makedirs(BUILD, exist_ok=True)
     args = ["cargo", "build", "--offline", "--quiet"]
     if profile == "release":
